@@ -66,12 +66,13 @@ class ModuleRef:
 
 
 class FuncRef:
-    def __init__(self, mod, node, closure=None, bound_self=None, qual=None):
+    def __init__(self, mod, node, closure=None, bound_self=None, qual=None, owner=None):
         self.mod = mod
         self.node = node
         self.closure = closure
         self.bound_self = bound_self
         self.qual = qual or getattr(node, "name", "<lambda>")
+        self.owner = owner  # (Module, ClassDef) when looked up through a class
 
     def __repr__(self):
         return f"<func {self.mod.name if self.mod else '?'}::{self.qual}>"
@@ -96,6 +97,12 @@ class SymObj:
 
     def __repr__(self):
         return f"<symobj {self.name}:{self.cls.node.name if self.cls else '?'}>"
+
+
+class SuperProxy:
+    def __init__(self, obj, owner):
+        self.obj = obj
+        self.owner = owner
 
 
 class UFunc:
@@ -266,7 +273,7 @@ class Interp:
                 return ClassRef(m, node)
             return FuncRef(m, node)
         if kind == "assign":
-            _, m, node = r
+            _, m, node, name = r
             key = (m.name, name)
             if key in self.overrides:
                 return self.overrides[key]
@@ -402,10 +409,15 @@ class Interp:
         name = cref.node.name
         if name in self.overrides and callable(self.overrides[name]):
             return self.overrides[name](self, args, kwargs)
+        new = ri.class_member(cref.mod, cref.node, "__new__")
+        if new is not None and isinstance(new[2], ast.FunctionDef):
+            return self.apply_funcref(FuncRef(new[0], new[2], bound_self=cref, qual=f"{new[1].name}.__new__", owner=(new[0], new[1])),
+                                      list(args), kwargs)
         obj = SymObj(cref, {}, name=name)
         init = ri.class_member(cref.mod, cref.node, "__init__")
         if init is not None and isinstance(init[2], ast.FunctionDef):
-            self.apply_funcref(FuncRef(init[0], init[2], bound_self=obj, qual=f"{init[1].name}.__init__"), list(args), kwargs)
+            self.apply_funcref(FuncRef(init[0], init[2], bound_self=obj, qual=f"{init[1].name}.__init__", owner=(init[0], init[1])),
+                               list(args), kwargs)
             return obj
         # dataclass / NamedTuple style: annotated fields in definition order (bases first)
         fields = []
@@ -436,10 +448,9 @@ class Interp:
         if self.depth >= self.max_depth:
             raise OutsideFragment(f"call depth bound {self.max_depth} exceeded at {fn.qual}")
         env = Env(fn.mod, fn.closure)
-        if isinstance(node, ast.Lambda):
-            a = node.args
-        else:
-            a = node.args
+        if fn.owner is not None:
+            env.vars["__class__"] = fn.owner
+        a = node.args
         params = [p.arg for p in a.posonlyargs + a.args]
         args = list(args)
         if fn.bound_self is not None:
@@ -665,6 +676,14 @@ class Interp:
             s1, s2 = S(v1), S(v2)
             if s1 == s2:
                 return v1
+            # recognised idiom "zero-skip": `if a != 0: acc += a*X` -- the else-value is the then-value at a = 0
+            z = _zero_skip_symbol(cond)
+            if z is not None:
+                try:
+                    if sp.expand(s1.subs(z, 0) - s2) == 0:
+                        return s1
+                except Exception:  # noqa: BLE001
+                    pass
             return sp.Piecewise((s1, cond), (s2, True))
         if isinstance(v1, bool) and isinstance(v2, bool):
             if v1 == v2:
@@ -1363,6 +1382,23 @@ class Interp:
             if attr == "flat":
                 return base.ravel()
             return ("method", base, attr)
+        if isinstance(base, SuperProxy):
+            obj = base.obj
+            cref = obj.cls if isinstance(obj, SymObj) else obj
+            if cref is None:
+                return Opaque("super." + attr)
+            chain = ri.mro(cref.mod, cref.node)
+            names = [(m.name, c.name) for m, c in chain]
+            key = (base.owner[0].name, base.owner[1].name)
+            start = names.index(key) + 1 if key in names else 0
+            for m, c in chain[start:]:
+                for st in c.body:
+                    if isinstance(st, ast.FunctionDef) and st.name == attr:
+                        decos = ri.decorators(st)
+                        if "staticmethod" in decos:
+                            return FuncRef(m, st, qual=f"{c.name}.{attr}", owner=(m, c))
+                        return FuncRef(m, st, bound_self=obj, qual=f"{c.name}.{attr}", owner=(m, c))
+            return Opaque("super." + attr)
         if isinstance(base, SymObj):
             if attr in base.attrs:
                 return base.attrs[attr]
@@ -1372,13 +1408,13 @@ class Interp:
                     m, c, nd = hit
                     if isinstance(nd, ast.FunctionDef):
                         decos = ri.decorators(nd)
-                        fr = FuncRef(m, nd, bound_self=base, qual=f"{c.name}.{attr}")
+                        fr = FuncRef(m, nd, bound_self=base, qual=f"{c.name}.{attr}", owner=(m, c))
                         if any(d in ("property", "cached_property", "functools.cached_property") or d.endswith("abstractproperty") for d in decos):
                             return self.apply(fr, [], {})
                         if "staticmethod" in decos:
-                            return FuncRef(m, nd, qual=f"{c.name}.{attr}")
+                            return FuncRef(m, nd, qual=f"{c.name}.{attr}", owner=(m, c))
                         if "classmethod" in decos:
-                            return FuncRef(m, nd, bound_self=base.cls, qual=f"{c.name}.{attr}")
+                            return FuncRef(m, nd, bound_self=base.cls, qual=f"{c.name}.{attr}", owner=(m, c))
                         return fr
                     if isinstance(nd, (ast.Assign, ast.AnnAssign)):
                         return self.eval(nd.value, Env(m))
@@ -1388,7 +1424,10 @@ class Interp:
             if hit is not None:
                 m, c, nd = hit
                 if isinstance(nd, ast.FunctionDef):
-                    return FuncRef(m, nd, qual=f"{c.name}.{attr}")
+                    decos = ri.decorators(nd)
+                    if "classmethod" in decos:
+                        return FuncRef(m, nd, bound_self=base, qual=f"{c.name}.{attr}", owner=(m, c))
+                    return FuncRef(m, nd, qual=f"{c.name}.{attr}", owner=(m, c))
                 return self.eval(nd.value, Env(m))
             raise OutsideFragment(f"class attribute {base.node.name}.{attr} unknown")
         if isinstance(base, Opaque):
@@ -1425,6 +1464,20 @@ class Interp:
             else:
                 kwargs[k.arg] = self.eval(k.value, env)
         if isinstance(fn, tuple) and fn and fn[0] == "builtin" and fn[1] == "super":
+            try:
+                owner = env.lookup("__class__")
+            except KeyError:
+                return Opaque("super")
+            e = env
+            first = None
+            while e is not None and first is None:
+                for k, v in e.vars.items():
+                    if k in ("self", "cls"):
+                        first = v
+                        break
+                e = e.parent
+            if isinstance(first, (SymObj, ClassRef)) and isinstance(owner, tuple):
+                return SuperProxy(first, owner)
             return Opaque("super")
         return self.apply(fn, args, kwargs)
 
@@ -1613,6 +1666,17 @@ class Interp:
 
 
 _MODCONST_CACHE = {}
+
+
+def _zero_skip_symbol(cond):
+    """cond is `a != 0` for a symbol a -> a."""
+    if isinstance(cond, sp.Ne):
+        l, r = cond.args
+        if r == 0 and isinstance(l, sp.Symbol):
+            return l
+        if l == 0 and isinstance(r, sp.Symbol):
+            return r
+    return None
 
 
 def _is_boolterm(e):
